@@ -51,6 +51,7 @@ type ARec struct {
 	Raw   rawStr `json:"raw,omitempty"`   // hostile material sent verbatim instead of a record (C07)
 	TS    int    `json:"ts,omitempty"`    // timestamp variant
 	Esc   bool   `json:"esc,omitempty"`   // the message carries backslash escapes for the configured unescape step
+	Head  bool   `json:"head,omitempty"`  // the message starts with a bracketed label for the extractHead step
 	MK    int    `json:"mk,omitempty"`    // >0: host / msgid pair chosen so that different (host, source) metric key sets have the same concatenation
 }
 
@@ -141,7 +142,7 @@ func (w *worldA) Decode(raw json.RawMessage) (any, error) {
 var aSeverities = []string{"off", "fatal", "crit", "error", "warn", "notice", "info", "debug"}
 
 func (s *AScenario) configYAML(variant string) string {
-	fields := "facility, level, time, host, app, pid, source, extradata, log, extra1, extra3, extra4"
+	fields := "facility, level, time, host, app, pid, source, extradata, log, extra1, extra3, extra4, class, task"
 	extra := ""
 	switch variant {
 	case "valid2":
@@ -194,6 +195,16 @@ inputs:
       - type: addFields
         fields:
           extra4: in-$app:$pid
+      - type: extractHead
+        key: log
+        pattern: '\[*\] - '
+        maxLen: 100
+        destKey: class
+      - type: extractTail
+        key: source
+        pattern: ':*'
+        maxLen: 41
+        destKey: task
 orchestration:
   type: byKeySet
   keys: [%s]
@@ -292,6 +303,9 @@ func (s *AScenario) recordLine(client, seq int, rec ARec) string {
 		host, msgid = mkHostSource(rec.MK)
 	}
 	msg := fmt.Sprintf("c%d.n%d#", client, seq) // self-delimiting: a truncated stamp never equals another stamp
+	if rec.Head {
+		msg = fmt.Sprintf("[Cls%d ] - ", seq%7) + msg
+	}
 	if rec.Fill > 0 {
 		msg += " " + strings.Repeat(string(rune('a'+seq%26)), rec.Fill)
 	}
@@ -375,6 +389,7 @@ func (w *worldA) Generate(r *simrt.Rand, profile, tier string) any {
 				if r.Bool(10) {
 					rec.Drop = true
 				}
+				rec.Head = r.Bool(10)
 				switch r.Intn(4) {
 				case 0:
 					rec.Fill = r.Intn(40)
@@ -418,7 +433,13 @@ var c06Alphabet = []string{"", "a", "b", "ab", "bc", "c", ",", "a,b", "b,c", "/"
 // hostile material for C07, produced by grammar mutation of a valid record
 func hostileLine(r *simrt.Rand, n int) string {
 	valid := fmt.Sprintf("<13>1 2024-03-05T10:20:30Z host app 42 - - hostile payload number %d with padding", n)
-	switch r.Intn(24) {
+	switch r.Intn(28) {
+	case 24: // bracketed label for the extractHead step made of blanks / control bytes only, or empty
+		return strings.Replace(valid, "hostile payload", []string{"[   ] - ", "[\t] - ", "[] - ", "[ \x01 ] - ", "[" + strings.Repeat(" ", 98) + "] - "}[r.Intn(5)]+"payload", 1) + "\n"
+	case 25: // label for the extractTail step on the msgid: blank / control bytes only, empty, oversize
+		return strings.Replace(valid, " - - ", " "+[]string{"src:\t", "src:", ":", "s:\x01\x02", "s:" + strings.Repeat("f", 60)}[r.Intn(5)]+" - ", 1) + "\n"
+	case 26: // unterminated or nested brackets
+		return strings.Replace(valid, "hostile payload", []string{"[unterminated - ", "[[a]] - ", "[a] -", "] - [", "[a\\] - "}[r.Intn(5)]+"payload", 1) + "\n"
 	case 0:
 		return "<\n"
 	case 1:
@@ -746,10 +767,11 @@ func (w *worldA) Shrink(sc any) []any {
 				out = append(out, c)
 			}
 			for ri, rec := range bu.Recs {
-				if rec.Fill > 0 || rec.Multi > 0 || rec.Drop || rec.Esc {
+				if rec.Fill > 0 || rec.Multi > 0 || rec.Drop || rec.Esc || rec.Head {
 					c := clone()
 					c.Clients[ci].Bursts[bi].Recs[ri].Fill, c.Clients[ci].Bursts[bi].Recs[ri].Multi, c.Clients[ci].Bursts[bi].Recs[ri].Drop = 0, 0, false
 					c.Clients[ci].Bursts[bi].Recs[ri].Esc = false
+					c.Clients[ci].Bursts[bi].Recs[ri].Head = false
 					out = append(out, c)
 				}
 			}
